@@ -541,7 +541,7 @@ fn unterminated_for(fe: &str) -> Vec<String> {
                 "'''", "\"\"\"", "\"\"\" teh \"\"\"", "\"", "'", "\"a", "x = \"é😀\" // teh", "//go:generate", "//go:build x\n//", "//go:build x\n// teh", "/// ```\n/// code", "// ```", "/* a */ /* b */",
                 "/* a */\n\n\n\n/* b */", "// a\n\n\n\n\n// b", "# a\n\n\n\n # b", "// spellchecker:ignore", "/* é */ x /* 😀 teh */", "<?php // teh", "<?php /* teh", "<?php\n# teh\n?> teh <?php // teh",
                 "=begin\nteh\n=end", "=begin\nteh", "<<EOF\nteh\nEOF", "#[[ teh ]]", "#[[ teh", "/+ teh +/", "(* teh *)", "; teh", "% teh", "<!-- teh -->", "{/* teh */}", "<div>{/* teh */}</div>",
-                "f(1(1",
+                // (the F32 witness `f(1(1` and the F33 witness `/* try: 90-` live in corpus/C01 only: every hang costs 10 s and a core until the process exits)
                 "const x = <div>// teh</div>;", "`${/* teh */ 1}`", "r#\"// teh\"#", "'//' // teh", "x /* a /* b */ c */ y", "#if 0\nteh\n#endif", "\\\n// teh", "// a \\\nteh",
             ] {
                 v.push(s.to_string());
@@ -612,7 +612,7 @@ fn nonascii_mutate(text: &str, r: &mut Rng) -> String {
 /// Text the condense passes of `Document::parse` merge into ONE token (ordinals `1st`, contractions,
 /// dotted initialisms, ellipses, …) with markup opened INSIDE it, so that the merged neighbours are not
 /// contiguous in the source — at the very start of the document and after other text.
-fn split_by_markup(fe: &str) -> Vec<String> {
+fn split_by_markup(fe: &str, thin: bool) -> Vec<String> {
     let base = fe.split('+').next().unwrap();
     let wrappers: &[(&str, &str)] = match base {
         "plain" | "c:java" => return vec![],
@@ -631,10 +631,18 @@ fn split_by_markup(fe: &str) -> Vec<String> {
                 if comment && (wi + k + xi) % 4 != 0 {
                     continue;
                 }
+                // quick tier: half of the (word, split, wrapper) triples; every word and wrapper still occurs
+                if thin && !comment && (wi + k + xi) % 2 != 0 {
+                    continue;
+                }
                 let head: String = cs[..k].iter().collect();
                 let tail: String = cs[k..].iter().collect();
                 let core = format!("{head}{open}{tail}{close}");
-                for t in [core.clone(), format!("{core} place goes to her."), format!("The {core} one.")] {
+                let mut placed = vec![core.clone(), format!("{core} place goes to her.")];
+                if !thin || (wi + k + xi) % 4 == 0 {
+                    placed.push(format!("The {core} one."));
+                }
+                for t in placed {
                     v.push(if comment { comment_wrap(&base[2..], &t, wi + k) } else { t });
                 }
             }
@@ -836,14 +844,11 @@ fn generate(a: &Args, r: &mut Rng) -> Vec<Case> {
             }
         }
         // 1b. merged tokens (ordinals, contractions, initialisms, …) with markup opened inside them
-        for t in split_by_markup(fe) {
+        for t in split_by_markup(fe, !a.thorough()) {
             push(&mut cases, fe, t, "split-by-markup", r, false);
         }
         // 1c. non-ASCII variants of the unterminated markup (byte length != character count)
         for t in unterminated_for(fe) {
-            if t == "f(1(1" && fe.starts_with("c:dart") {
-                continue; // F32: one witness of the Dart hang is enough (each costs 10 s and a core)
-            }
             let m = nonascii_mutate(&t, r);
             push(&mut cases, fe, m, "non-ascii-mutated", r, false);
         }
@@ -855,7 +860,7 @@ fn generate(a: &Args, r: &mut Rng) -> Vec<Case> {
                 None => x,
             };
             push(&mut cases, fe, place(t.clone()), "unusual-literal", r, false);
-            if !wrapped {
+            if !wrapped && (a.thorough() || i % 2 == 0 || t.starts_with("0x")) {
                 push(&mut cases, fe, place(format!("See {t} here.")), "unusual-literal", r, false);
                 push(&mut cases, fe, place(format!("the {t}\n")), "unusual-literal", r, false);
             }
@@ -907,7 +912,7 @@ fn generate(a: &Args, r: &mut Rng) -> Vec<Case> {
         let mut taken = 0;
         for t in docs.iter().filter(|t| {
             let n = t.chars().count();
-            (20..=400).contains(&n)
+            (20..=if a.thorough() { 400 } else { 250 }).contains(&n)
         }) {
             if taken >= n_pref {
                 break;
